@@ -81,6 +81,12 @@ CHECKS = {
         text="Stacks of up to 4 layers of every executor type (with_asyncio outermost included) over a manual or thread-pool base, with a recording tap below every layer, are shut down while idle, queued, between retries, polling or running, with 0-2 submitters racing: shutdown() must return; later submits raise exactly the documented RuntimeError; a second shutdown returns; every level down the chain saw exactly one shutdown with the same wait/cancel_futures arguments, inside the first shutdown call; with wait=True every thread the stack created has exited by the time shutdown() returns (the scheduler knows thread exit exactly); racing submits raise that error or return a future.",
         design_ref="DESIGN.md section 4 (C11)", note=ENGINE_NOTE),
 
+    "C13": dict(
+        category="exploration",
+        technique="model-based + metamorphic property testing: exhaustive enumeration of (form x fn behaviour x error_fn behaviour x input outcome x timing) for single layers and reduced two-layer chains, Hypothesis-drawn chains up to 4 with tapes and racing output cancels, compared with the reference function of the statement; pure map chains compared with the single composed map",
+        text="with_map/with_flat_map (sync or manual base) and f_map/f_flat_map: for every combination of input outcome (value, exception, cancelled from outside; done before, later, from another thread) and fn/error_fn behaviour (absent, return, raise new, re-raise same, return the exception, return a resolved/failed/cancelled/pending future, return truthy or falsy non-futures) the outcome, exception identity, preserved raise site in __traceback__ and the exact number of fn/error_fn calls must match lib/models.py; chains of pure maps must equal the composed map.",
+        design_ref="DESIGN.md section 4 (C13)", note=ENGINE_NOTE),
+
     "C14": dict(
         category="exploration",
         technique="model-based property testing: and/or fold over admissible linearisations of the completion events; exhaustive outcome x completion-order enumeration + Hypothesis-drawn concurrent completions under the deterministic scheduler",
